@@ -1,6 +1,6 @@
 #!/bin/bash
 # usage: lib/mergeagent.sh <name>... : merge agent/<name> into main, resolving evidence conflicts with theirs, go.mod with ours
-cd /verif
+cd /verif; git diff --quiet || { git add -A; git commit -q -m "wip before merge"; }
 for b in "$@"; do
   echo "== merge $b"
   git merge --no-edit agent/$b 2>&1 | grep -i "conflict\|fatal"
